@@ -277,9 +277,36 @@ def probe(cfg: Dict[str, Any], draw: int, up_draw: int = 0, backward: bool = Tru
                 obs["bwd"][k] = {"f": None, "res": None, "none": [a is None, c is None]}
                 continue
             f, r = fit(a, c)
-            obs["bwd"][k] = {"f": f, "res": r, "shape_ok": tuple(a.shape) == tuple(c.shape), "dtype_ok": a.dtype == c.dtype,
+            obs["bwd"][k] = {"f": f, "res": r, "shape_ok": tuple(a.shape) == tuple(c.shape), "dtype_ok": a.dtype == c.dtype, "noise": None,
                              "zero_ref": bool(float(torch.nan_to_num(c.detach().to(torch.float64), nan=0.0, posinf=0.0, neginf=0.0).abs().max()) == 0.0) if c.numel() else True}
+        _calibrate(cfg, b, ins_r, up, gr, obs)
     return obs
+
+
+def _calibrate(cfg: Dict[str, Any], b: "Built", ins_r, up, gr, obs: Dict[str, Any]) -> None:
+    """Conditioning of every gradient slot ON THIS DATA, measured on PyTorch alone: the same reference is run in a second
+    precision (float64 for low-precision configurations, float32 for float64 ones) and the two reference gradients are
+    compared with the same fit.  noise = how far PyTorch's own gradient moves when only the arithmetic precision changes,
+    rescaled to the configuration's dtype.  A slot whose noise is a sizeable fraction of the tolerance (cancellation,
+    saturated softmax in float16, a one-element gradient that is a difference of nearly equal terms) carries no
+    information about the factor and is skipped by the callers."""
+    if b.seed_rng:
+        return
+    dt = cfg.get("dtype", "f64")
+    other = torch.float32 if dt == "f64" else torch.float64
+    try:
+        ins_w = OrderedDict((k, (v.detach().to(other).requires_grad_(v.requires_grad) if v.is_floating_point() else v.detach().clone())) for k, v in ins_r.items())
+        out_w = (b.r_sum if b.r_sum is not b.r else b.r)(ins_w)
+        gw = torch.autograd.grad(out_w, [ins_w[k] for k in b.diff], up.to(out_w.dtype), allow_unused=True)
+    except Exception:
+        return
+    rescale = (EPS["f64"] / EPS["f32"]) if (dt == "f64" and cfg["op"] != "rms_norm") else 1.0   # rms_norm: float32 statistic by design
+    for k, c, w in zip(b.diff, gr, gw):
+        if c is None or w is None or k not in obs["bwd"] or obs["bwd"][k].get("f") is None:
+            continue
+        s, res = fit(c, w)
+        if s == s and res == res:
+            obs["bwd"][k]["noise"] = (abs(s - 1.0) + res) * rescale
 
 
 # --------------------------------------------------------------------------
